@@ -15,7 +15,7 @@ type regCfg struct {
 	a2imp   int  // a v0.2.0 root package: 0 no import; 1 imports c, requires c v0.1.0; 2 imports c, requires c v0.2.0
 	aSub    int  // package a/p: 0 nowhere; 1 in a v0.1.0 only; 2 in every version of a@v0
 	bVers   int  // 0: b@v0 {v0.1.0}; 1: {v0.1.0, v0.2.0}
-	b1, b2  int  // root package of b v0.1.0 / v0.2.0: 0 no import; 1 imports a, requires a v0.1.0; 2 imports a, requires a v0.2.0; 3 imports c, requires c v0.1.0; 4 imports c, requires c v0.2.0; 5 imports a but requires nothing (untidy dependency)
+	b1, b2  int  // root package of b v0.1.0 / v0.2.0 (6, 7: imports a, requires a@v0 v0.1.0 and a@v1 v1.0.0 with the default flag on v0 / v1): 0 no import; 1 imports a, requires a v0.1.0; 2 imports a, requires a v0.2.0; 3 imports c, requires c v0.1.0; 4 imports c, requires c v0.2.0; 5 imports a but requires nothing (untidy dependency)
 	v1      bool // a@v1 v1.0.0 exists
 	overlap bool // module x.test/a/p@v0 v0.1.0 exists (provides the same import path as package p of a)
 }
@@ -72,6 +72,11 @@ func buildRegistry(c regCfg) []Mod {
 			m.Deps = []Dep{{Path: pc + "@v0", V: []string{"v0.1.0", "v0.2.0"}[bc-3]}}
 		case 5:
 			m.Pkgs = []Pkg{rootPkg(pa)}
+		case 6, 7:
+			// requires two major versions of a with an explicit default and
+			// imports a without a major version
+			m.Pkgs = []Pkg{rootPkg(pa)}
+			m.Deps = []Dep{{Path: pa + "@v0", V: "v0.1.0", Default: bc == 6}, {Path: pa + "@v1", V: "v1.0.0", Default: bc == 7}}
 		}
 		reg = append(reg, m)
 	}
@@ -217,13 +222,13 @@ func runUniverses(r *core.Run) {
 			}
 		}
 	}
-	bMax := 5
+	bMax := 7
 	// quick tier: b in 14 of its 42 configurations
 	quickB := func(bVers, b1, b2 int) bool {
 		if bVers == 0 {
-			return b1 == 2 || b1 == 5
+			return b1 == 2 || b1 == 5 || b1 == 6 || b1 == 7
 		}
-		return (b1 == 0 || b1 == 1 || b1 == 3) && (b2 == 0 || b2 == 2 || b2 == 4 || b2 == 5)
+		return (b1 == 0 || b1 == 1 || b1 == 3) && (b2 == 0 || b2 == 2 || b2 == 4 || b2 == 5 || b2 == 6)
 	}
 	for _, imps := range importSets {
 		for aVers := 0; aVers <= 2; aVers++ {
@@ -242,6 +247,9 @@ func runUniverses(r *core.Run) {
 									continue
 								}
 								for vo := 0; vo < 4; vo++ {
+									if (b1 >= 6 || b2 >= 6) && vo&1 == 0 {
+										continue // needs a@v1
+									}
 									cfg := regCfg{aVers: aVers, a2imp: a2imp, aSub: aSub, bVers: bVers, b1: b1, b2: b2, v1: vo&1 != 0, overlap: vo&2 != 0}
 									reg := buildRegistry(cfg)
 									for policy := 0; policy < 4; policy++ {
